@@ -60,7 +60,8 @@ def cmdAsmFs (args : List String) : String :=
     | some tb, some tree =>
       let t := withParents tree
       let topPath := PathC.ofString ("/" ++ strOfBytes tb)
-      match ingestFile t.toFS ⟨true, []⟩ (fun k => k) asmFuel topPath with
+      let total := t.foldl (fun acc (_, e) => match e with | .file c => acc + c.length | _ => acc) 0
+      match ingestFile t.toFS ⟨true, []⟩ (fun k => k) (asmFuelFor total) topPath with
       | .ok (bytes, _) => s!"ok {hx bytes}"
       | .error e => showIngErr e
     | _, _ => "bad-op"
